@@ -122,7 +122,9 @@ type Plan struct {
 	StartFn  int
 	StartArg int32
 	HasStart bool
-	Host2    bool // imports env.h2 (after the plan imports)
+	// StartExported: the start function is not the module's start section but an exported "_start"
+	StartExported bool
+	Host2         bool // imports env.h2 (after the plan imports)
 }
 
 // Opts steer generation.
@@ -524,8 +526,13 @@ func (p *Plan) Encode() []byte {
 		m.AddFunc([]wasmb.ValType{wasmb.I32, wasmb.I64, wasmb.F32, wasmb.F64}, []wasmb.ValType{wasmb.I64, wasmb.I32}, nil, wc.B, "wide")
 	}
 	if p.HasStart {
-		st := m.AddFunc(nil, nil, nil, (&wasmb.Code{}).I32Const(p.StartArg).Call(l.F0+uint32(p.StartFn)).Drop().B, "")
-		m.Start = &st
+		if p.StartExported {
+			// a WASI-command style start: exported as "_start", run by InstantiateModule after registration
+			m.AddFunc(nil, nil, nil, (&wasmb.Code{}).I32Const(p.StartArg).Call(l.F0+uint32(p.StartFn)).Drop().B, "_start")
+		} else {
+			st := m.AddFunc(nil, nil, nil, (&wasmb.Code{}).I32Const(p.StartArg).Call(l.F0+uint32(p.StartFn)).Drop().B, "")
+			m.Start = &st
+		}
 	}
 	m.Globals = append(m.Globals, wasmb.Global{Type: wasmb.FuncRef, Mut: false, Init: wasmb.ConstRefFunc(l.Gleaf)})
 	m.Exports = append(m.Exports, wasmb.Export{Name: "mem", Kind: wasmb.KindMemory, Idx: 0})
